@@ -11,7 +11,8 @@ RULE = ("generated problems with objectives over variables at collocation times,
         "initial derivatives), unequal member probabilities, 0-2 path constraints with scalar / +-inf / "
         "Timeseries (shorter than the horizon) / per-member bounds, 0-2 point constraints per member; "
         "nlp f, g, lbg, ubg compared at two rational decision vectors. non-trivial = a path objective or "
-        "path constraint on a grid of >= 3 stamps or >= 2 members; distinct = abstracted problem shapes")
+        "path constraint on a grid of >= 3 stamps or >= 2 members; distinct = abstracted problem shapes"
+        ' Also: path and extra variables inside path / point expressions of multi-member problems, series bounds on other stamps than the collocation times, and objective_value against nlp f at solver_output after converged, iteration-limited and repeated solves.')
 MODELLED = ("transcribe(): objective assembly (1862-1871), point constraints (1873-1919), path constraints and "
             "their bounds (1921-1975), the t0 instances through __func_initial_inputs")
 NOT_MODELLED = ("vector constraints; parameter-dependent (symbolic) bounds; derivative of algebraics / controls at t0 "
